@@ -84,6 +84,16 @@ PROPS = {
                      "may get an error instead of a result only where a delivery to a faulty peer was involved, and the request must still have taken effect). "
                      "Non-trivial = at least one step delivered to a faulty peer while healthy peers were entitled to messages, or an injected accept failure "
                      "followed by further connects; distinct = scenario hash."),
+    "C14": scen("c14", ["default"],
+                quick=dict(cases=1200, size=60), thorough=dict(cases=40000, size=100, budget_s=3000),
+                rule="rapidcheck-generated histories of set/call with request timeouts and element timeouts drawn from {absent, 0.001, 0.00099999, 0.0010001, "
+                     "0.0005, 0, -1, 0.25, 0.5, 2, 7.5, 10, string, bool, null} in every precedence combination, owner replies, caller/owner disconnects and "
+                     "virtual-clock advances straddling the deadlines; steps that join a clock advance with a reply or a disconnect put the timer expiry and "
+                     "that event into one epoll batch in a generated order (both processing orders are accepted, exactly one answer is required). Oracles: "
+                     "refusal exactly for non-numeric or <1ms timeouts, the duration passed to timerfd_settime equals request timeout, else element timeout, "
+                     "else 5s (rel. tol. 1e-9), no timeout answer before the virtual deadline and one in the step that reaches it, late replies have no "
+                     "effect, sanitizers silent. Non-trivial = at least one armed duration was compared and the scenario has a timeout or a race step; "
+                     "distinct = scenario hash."),
 }
 
 def plan_workers(spec, tier, nproc):
